@@ -1,5 +1,6 @@
 import BoltonsVerif.C12.Proofs
 import BoltonsVerif.C12.Proofs3
+import BoltonsVerif.C12.Proofs4
 import BoltonsVerif.Generated.C12_Consts
 import BoltonsVerif.Generated.C12_NsWindow
 /-
@@ -733,5 +734,255 @@ theorem ns_window_table_matches_source :
       ((NsSock.init 0).setMaxsize p.1).window = p.2.2.1 ∧ calcWindow p.1 = p.2.2.2 := by decide
 
 example : Gen.nsWindowTable.length ≥ 30 ∧ (1000000000000000, 17, 17, 17) ∈ Gen.nsWindowTable := by decide
+
+/-! ## 10. round 3c: what the statement leaves free is accepted, not predicted
+
+    `recv(size)` - WHICH non-empty prefix it returns and how the rest is split between `rbuf` and the socket - and
+    how many bytes one iteration of `send`'s loop hands to `sock.send` are free.  A recv attempt reaches the model as
+    an observation that `acceptRecv` checks against the statement's recv clause, the model continuing from the
+    OBSERVED state; the send loop takes the observed offers as a parameter (`sendLoopA`). -/
+
+/-- what "accepted" means: exactly the recv clause of the statement (the shape of `recv_prefix`), against the model's
+    current state - a fault used up a fault of the network and moved nothing; a value is a prefix of
+    `rbuf ++ undelivered`, at most `size` long, empty only when nothing is left; afterwards buffered ++ undelivered
+    is exactly the rest; the buffer is the observed one -/
+theorem recv_acceptance_is_statement (size : Nat) (o : RecvObs) (st st' : St)
+    (h : acceptRecv size o st = some st') :
+    st'.rbuf = o.rbuf ∧ nTO st'.script ≤ nTO st.script ∧
+    ((o.res = none ∧ st'.view = st.view ∧ nTO st'.script < nTO st.script) ∨
+     (∃ v, o.res = some v ∧ v ++ st'.view = st.view ∧ v.length ≤ size ∧
+        (0 < size → v = [] → st.view = []))) :=
+  acceptRecv_sound size o st st' h
+
+/-- the acceptance relation is not stricter than the verified code: whatever the model's own `recv` does - serve
+    from the buffer, or ask the socket for `recvsize` bytes and buffer the surplus - is accepted when reported as an
+    observation, and the accepted state has the model's buffer, the model's view and the model's faults ahead -/
+theorem model_recv_is_accepted (cfg : Cfg) (size : Nat) (st : St) (hrs : 0 < cfg.recvsize) :
+    ∃ st', acceptRecv size (obsOfRecv (recv cfg size st)) st = some st' ∧
+      st'.rbuf = (recv cfg size st).2.rbuf ∧ st'.view = (recv cfg size st).2.view ∧
+      nTO st'.script = nTO (recv cfg size st).2.script :=
+  recv_accepted cfg size st hrs
+
+/-- the results of the delimiter / size calls are a function of `rbuf ++ undelivered`, not of the split: from two
+    states that owe the caller the same bytes - however these are divided between buffer and network, whatever the
+    chunking, the timeouts ahead and the two recvsize settings - a call (retried after Timeout) returns the same
+    value / raises the same ConnectionClosed / MessageTooLong and leaves the same bytes owed -/
+theorem framing_function_of_view (cfg₁ cfg₂ : Cfg) (h₁ : 0 < cfg₁.recvsize) (h₂ : 0 < cfg₂.recvsize) (op : Op)
+    (hdet : op.deterministic = true) (st₁ st₂ : St) (hv : st₁.view = st₂.view) :
+    (callRetry cfg₁ op st₁).1 = (callRetry cfg₂ op st₂).1 ∧
+    (callRetry cfg₁ op st₁).2.view = (callRetry cfg₂ op st₂).2.view := by
+  have e₁ := callRetry_ok cfg₁ h₁ op hdet st₁
+  have e₂ := callRetry_ok cfg₂ h₂ op hdet st₂
+  rw [hv] at e₁
+  have := e₁.trans e₂.symm
+  simp only [Prod.mk.injEq] at this
+  exact this
+
+/-- the same for single attempts: two attempts that both got through without a fault agree -/
+theorem attempt_function_of_view (cfg₁ cfg₂ : Cfg) (h₁ : 0 < cfg₁.recvsize) (h₂ : 0 < cfg₂.recvsize) (op : Op)
+    (hdet : op.deterministic = true) (st₁ st₂ : St) (hv : st₁.view = st₂.view)
+    (n₁ : (attempt cfg₁ op st₁).1 ≠ .timeout) (n₂ : (attempt cfg₂ op st₂).1 ≠ .timeout) :
+    (attempt cfg₁ op st₁).1 = (attempt cfg₂ op st₂).1 ∧
+    (attempt cfg₁ op st₁).2.view = (attempt cfg₂ op st₂).2.view := by
+  rcases attempt_timeout_or_spec cfg₁ h₁ op hdet st₁ with ⟨a, -⟩ | ⟨-, e₁⟩
+  · exact absurd a n₁
+  rcases attempt_timeout_or_spec cfg₂ h₂ op hdet st₂ with ⟨a, -⟩ | ⟨-, e₂⟩
+  · exact absurd a n₂
+  rw [hv] at e₁
+  have := e₁.trans e₂.symm
+  simp only [Prod.mk.injEq] at this
+  exact this
+
+/-- THE theorem behind the acceptance step: a run in which every recv attempt was merely accepted (any prefix, any
+    split, any number of socket reads behind it) and the framing calls are the model's - each retried after Timeout -
+    returns for every recv_until / recv_size / peek / recv_close exactly the whole-stream answer on the bytes still
+    owed (the accepted recv steps taking what they handed over off the front), and ends owing the whole-stream rest -/
+theorem accepted_run_eq_spec (cfg : Cfg) (hrs : 0 < cfg.recvsize) (s0 : List Ev) (steps : List MStep) (st : St)
+    (rs : List Res) (st' : St) (hdet : ∀ s ∈ steps, s.det = true) (h : runMixed cfg s0 steps st = some (rs, st')) :
+    (rs, st'.view) = specMixed steps st.view :=
+  runMixed_ok cfg hrs s0 steps st rs st' hdet h
+
+/-- conservation along such a run: handed over by the accepted recv steps ++ consumed by the framing calls ++ rbuf ++
+    undelivered = what was owed at the start, in order -/
+theorem accepted_run_conservation (cfg : Cfg) (hrs : 0 < cfg.recvsize) (s0 : List Ev) (steps : List MStep) (st : St)
+    (rs : List Res) (st' : St) (h : runMixed cfg s0 steps st = some (rs, st')) :
+    handedMixed steps rs ++ st'.rbuf ++ pending st'.script = st.rbuf ++ pending st.script := by
+  have := runMixed_conserves cfg hrs s0 steps st rs st' h
+  simpa [St.view, List.append_assoc] using this
+
+/-- ... hence independent of the split: two accepted runs of the same framing calls whose recv steps handed over the
+    same bytes (their observed buffers, undelivered counts, fault counts and the splits the model was re-seated on
+    may all differ), from two states owing the same bytes, over any two networks and recvsize settings, give the
+    same results and end owing the same bytes -/
+theorem accepted_run_split_independent (cfg₁ cfg₂ : Cfg) (h₁ : 0 < cfg₁.recvsize) (h₂ : 0 < cfg₂.recvsize)
+    (steps₁ steps₂ : List MStep) (hsame : steps₁.map MStep.answer = steps₂.map MStep.answer)
+    (hd₁ : ∀ s ∈ steps₁, s.det = true) (hd₂ : ∀ s ∈ steps₂, s.det = true) (s₁ s₂ : List Ev)
+    (st₁ st₂ : St) (hv : st₁.view = st₂.view) (rs₁ rs₂ : List Res) (f₁ f₂ : St)
+    (r₁ : runMixed cfg₁ s₁ steps₁ st₁ = some (rs₁, f₁)) (r₂ : runMixed cfg₂ s₂ steps₂ st₂ = some (rs₂, f₂)) :
+    rs₁ = rs₂ ∧ f₁.view = f₂.view := by
+  have e₁ := runMixed_ok cfg₁ h₁ s₁ steps₁ st₁ rs₁ f₁ hd₁ r₁
+  have e₂ := runMixed_ok cfg₂ h₂ s₂ steps₂ st₂ rs₂ f₂ hd₂ r₂
+  rw [specMixed_answer steps₁ steps₂ hsame, hv] at e₁
+  have := e₁.trans e₂.symm
+  simp only [Prod.mk.injEq] at this
+  exact this
+
+/-- sessions written with the public calls (maxsize omitted / None / explicit, setmaxsize in between), recv calls
+    carrying their observed attempts: the steps they resolve to are covered by `accepted_run_eq_spec` -/
+theorem accepted_calls_eq_spec (large : Nat) (cfg : Cfg) (hrs : 0 < cfg.recvsize) (s0 : List Ev) (calls : List MCall)
+    (hdet : ∀ c seat, MCall.call c seat ∈ calls → c.deterministic = true) (st : St) (rs : List Res) (st' : St)
+    (h : runMixed cfg s0 (resolveMixed large cfg.maxsize calls) st = some (rs, st')) :
+    (rs, st'.view) = specMixed (resolveMixed large cfg.maxsize calls) st.view :=
+  runMixed_ok cfg hrs s0 _ st rs st' (resolveMixed_det large calls cfg.maxsize hdet) h
+
+/-- an observed recv on the ONE object: the send side and the configuration are untouched, the receive side moves
+    to the accepted state, one fault class stays recorded per fault still ahead, and a raised fault carries the class
+    of the last fault the call used up -/
+theorem observed_recv_frame (size : Nat) (o : RecvObs) (cls : Fault) (b b' : BSock) (out : DOut)
+    (h : daccRecv size o cls b = some (out, b')) (ha : b.Aligned) :
+    b'.txPart = b.txPart ∧ b'.cfg = b.cfg ∧ b'.Aligned ∧ acceptRecv size o b.rx = some b'.rx ∧
+    (out = .rx (some o.toRes) ∨ out = .fault cls) ∧
+    (out = .fault cls →
+      o.res = none ∧ ∃ used, 0 < used ∧ used ≤ b.rtags.length ∧ b'.rtags = b.rtags.drop used ∧
+        (b.rtags.drop (used - 1)).head? = some cls) :=
+  daccRecv_ok size o cls b b' out h ha
+
+/-- the VALUE of a framing call (and of `read_ns`, which ends with `recv(1)`) is pinned, the split it leaves between
+    `rbuf` and the socket is not (over-read into the buffer, or ask the socket for exactly what is missing).  Re-seating
+    the model on the observed split - done only when that is a split of the same bytes with the same faults ahead -
+    changes neither the bytes owed nor the faults ahead, so everything proved about later calls still holds; on the
+    one object it touches neither the send side nor the configuration nor the fault classes -/
+theorem reseat_keeps_stream (s0 : List Ev) (o : RecvObs) (st : St) (so : Option RecvObs) (b : BSock) :
+    ((reseat s0 o st).view = st.view ∧ nTO (reseat s0 o st).script = nTO st.script) ∧
+    ((dseat s0 so b).txPart = b.txPart ∧ (dseat s0 so b).cfg = b.cfg ∧ (dseat s0 so b).rtags = b.rtags ∧
+      (dseat s0 so b).rx.view = b.rx.view ∧ (b.Aligned → (dseat s0 so b).Aligned)) :=
+  ⟨reseat_ok s0 o st, dseat_ok s0 so b⟩
+
+/-- send / sendall / buffer / flush with ANY number of bytes offered to `sock.send` per iteration (any list of
+    offers for every call): wire ++ send buffer = everything the caller handed over, in order; the wire only grows -/
+theorem send_conservation_any_offers (ops : List (List Nat × SOp)) (script : List SEv) :
+    (srunA ops (sstart script)).2.wire ++ (srunA ops (sstart script)).2.getsendbuffer
+      = (ops.map (fun p => p.2.data)).flatten ∧
+    ∀ st, st.wire <+: (srunA ops st).2.wire := by
+  refine ⟨?_, fun st => (srunA_conserves ops st).2⟩
+  have := (srunA_conserves ops (sstart script)).1
+  simpa [SSt.getsendbuffer] using this
+
+/-- ... send() returning still means: everything is on the wire, once, in order, and the return value counts it -/
+theorem send_return_any_offers (offers : List Nat) (data : Bytes) (st : SSt) (n : Nat)
+    (h : (sendA offers data st).1 = .sent n) :
+    (sendA offers data st).2.getsendbuffer = [] ∧
+    (sendA offers data st).2.wire = st.wire ++ st.getsendbuffer ++ data ∧
+    n = st.getsendbuffer.length + data.length := by
+  obtain ⟨h1, _, _, h4, _⟩ := sendA_ok offers data st
+  obtain ⟨a, b⟩ := h4 n h
+  rw [a, List.append_nil] at h1
+  refine ⟨a, h1, ?_⟩
+  have := congrArg List.length h1
+  simp only [List.length_append] at this
+  omega
+
+/-- ... and the fault accounting is exact: faults left + (1 if this call raised) = faults there were -/
+theorem send_fault_accounting_any_offers (offers : List Nat) (op : SOp) (st : SSt) :
+    nSF (sstepA offers op st).2.script + (sstepA offers op st).1.isTO = nSF st.script :=
+  (sstepA_ok offers op st).2.2
+
+/-- with no offers recorded the parametrised loop IS the verified loop (whole buffer offered every time), on the
+    plain send side and on the one object -/
+theorem offers_absent_is_verified_loop (op : SOp) (st : SSt) (b : BSock) :
+    sstepA [] op st = sstep op st ∧ dsopA [] op b = dsop op b :=
+  ⟨sstepA_nil op st, dsopA_nil op b⟩
+
+/-- write_ns over a send loop with any offers: exactly the frame `<len>:<payload>,` goes behind what was accepted
+    before (nothing, with NetstringMessageTooLong, when the payload exceeds maxsize), and `ok` means it is all out;
+    with no offers recorded it is the verified `writeNs` -/
+theorem write_ns_frames_any_offers (offers : List Nat) (maxsize : Nat) (p : Bytes) (st : SSt) :
+    (writeNsA offers maxsize p st).2.wire ++ (writeNsA offers maxsize p st).2.getsendbuffer
+      = st.wire ++ st.getsendbuffer ++ (if p.length ≤ maxsize then encodeNs p else []) ∧
+    ((writeNsA offers maxsize p st).1 = .ok →
+      p.length ≤ maxsize ∧ (writeNsA offers maxsize p st).2.getsendbuffer = []) ∧
+    ((writeNsA offers maxsize p st).1 = .nsTooLong ↔ maxsize < p.length) ∧
+    writeNsA [] maxsize p st = writeNs maxsize p st :=
+  ⟨(writeNsA_conserves offers maxsize p st).1, (writeNsA_conserves offers maxsize p st).2.1,
+   (writeNsA_conserves offers maxsize p st).2.2, writeNsA_nil maxsize p st⟩
+
+/-- a send-side call with observed offers on the ONE object: the receive side is untouched, the classes stay
+    aligned, a raised fault has the class of the next send-side fault, conservation holds -/
+theorem observed_send_frame (offers : List Nat) (o : SOp) (b : BSock) (h : b.Aligned) :
+    (dsopA offers o b).2.rxPart = b.rxPart ∧ (dsopA offers o b).2.Aligned ∧
+    (∀ f, (dsopA offers o b).1 = .fault f → b.stags = f :: (dsopA offers o b).2.stags) ∧
+    (dsopA offers o b).2.tx.wire ++ (dsopA offers o b).2.tx.getsendbuffer
+      = b.tx.wire ++ b.tx.getsendbuffer ++ o.data ∧
+    b.tx.wire <+: (dsopA offers o b).2.tx.wire :=
+  dsopA_ok offers o b h
+
+/-- the caller's read loop over ANY accepted recv, framing calls in between allowed: once a `recv(size)` with
+    `size > 0` has returned b'' the stream is exhausted and what was handed over / consumed before is the whole
+    stream, in order - `recv_drain_whole_stream` for every implementation of recv the acceptance step lets through -/
+theorem accepted_recv_loop_whole_stream (cfg : Cfg) (hrs : 0 < cfg.recvsize) (s0 : List Ev) (pre : List MStep)
+    (size : Nat) (hs : 0 < size) (o : RecvObs) (ho : o.res = some []) (st : St) (rs : List Res) (st' : St)
+    (h : runMixed cfg s0 (pre ++ [.recvObs size o]) st = some (rs, st')) :
+    handedMixed (pre ++ [.recvObs size o]) rs = st.view ∧ st'.view = [] :=
+  runMixed_drained cfg hrs s0 pre size hs o ho st rs st' h
+
+/-! non-vacuity for section 10 -/
+-- stream "aab" in one chunk, recvsize 2.  The verified code's recv(1) reads "aa", returns "a", buffers "a"; a code
+-- that asks the socket for min(size, recvsize) returns "a" and buffers nothing: both observations are accepted
+example : acceptRecv 1 ⟨some [97], [97], 1, 0⟩ (start [.chunk [97, 97, 98]]) = some ⟨[97], [.chunk [98]]⟩ := by decide
+example : acceptRecv 1 ⟨some [97], [], 2, 0⟩ (start [.chunk [97, 97, 98]]) = some ⟨[], [.chunk [97, 98]]⟩ := by decide
+-- not accepted: a byte that is not the next one, two bytes for recv(1), b'' before the end, a lost byte, a
+-- duplicated byte, a Timeout the network did not cause
+example : acceptRecv 1 ⟨some [98], [], 2, 0⟩ (start [.chunk [97, 97, 98]]) = none := by decide
+example : acceptRecv 1 ⟨some [97, 97], [], 1, 0⟩ (start [.chunk [97, 97, 98]]) = none := by decide
+example : acceptRecv 1 ⟨some [], [], 3, 0⟩ (start [.chunk [97, 97, 98]]) = none := by decide
+example : acceptRecv 1 ⟨some [97], [], 1, 0⟩ (start [.chunk [97, 97, 98]]) = none := by decide
+example : acceptRecv 1 ⟨some [97], [97, 97], 1, 0⟩ (start [.chunk [97, 97, 98]]) = none := by decide
+example : acceptRecv 1 ⟨none, [], 3, 0⟩ (start [.chunk [97, 97, 98]]) = none := by decide
+-- a Timeout that used up the network's timeout and kept everything is accepted; b'' at the end of the stream too
+example : acceptRecv 1 ⟨none, [], 1, 0⟩ (start [.timeout, .chunk [97]]) = some ⟨[], [.chunk [97]]⟩ := by decide
+example : acceptRecv 4 ⟨some [], [], 0, 0⟩ (start []) = some ⟨[], []⟩ := by decide
+-- the two accepted variants of recv(1) above, each followed by the model's recv_until(b"b"): same answer
+example : runMixed ⟨2, 100⟩ [.chunk [97, 97, 98]] [.recvObs 1 ⟨some [97], [97], 1, 0⟩, .call (.recvUntil [98] 100 false) none]
+      (start [.chunk [97, 97, 98]]) = some ([.ok [97], .ok [97]], ⟨[], []⟩) := by decide
+example : runMixed ⟨2, 100⟩ [.chunk [97, 97, 98]] [.recvObs 1 ⟨some [97], [], 2, 0⟩, .call (.recvUntil [98] 100 false) none]
+      (start [.chunk [97, 97, 98]]) = some ([.ok [97], .ok [97]], ⟨[], []⟩) := by decide
+example : specMixed [.recvObs 1 ⟨some [97], [], 2, 0⟩, .call (.recvUntil [98] 100 false) none] [97, 97, 98]
+    = ([.ok [97], .ok [97]], []) := by decide
+-- recv_size(1) on "aab" in one chunk, recvsize 2: the model over-reads ("a" buffered, "b" in the socket); re-seated on
+-- the split of a code that asked the socket for exactly one byte (nothing buffered, "ab" in the socket) - a point of
+-- the script BEFORE the model's own; a "split" that is not a split of the same bytes is not taken
+example : (recvSize ⟨2, 100⟩ 1 (start [.chunk [97, 97, 98]])).2 = ⟨[97], [.chunk [98]]⟩ := by decide
+example : reseat [.chunk [97, 97, 98]] ⟨none, [], 2, 0⟩ ⟨[97], [.chunk [98]]⟩ = ⟨[], [.chunk [97, 98]]⟩ := by decide
+example : reseat [.chunk [97, 97, 98]] ⟨none, [], 1, 0⟩ ⟨[97], [.chunk [98]]⟩ = ⟨[97], [.chunk [98]]⟩ := by decide
+example : runMixed ⟨2, 100⟩ [.chunk [97, 97, 98]]
+      [.call (.recvSize 1) (some ⟨none, [], 2, 0⟩), .recvObs 5 ⟨some [97, 98], [], 0, 0⟩] (start [.chunk [97, 97, 98]])
+    = some ([.ok [97], .ok [97, 98]], ⟨[], []⟩) := by decide
+-- positions in a script
+example : advance exScript 4 1 = some [.chunk [99, 100], .chunk [13], .timeout, .chunk [10]] := by decide
+example : advance exScript 3 0 = some [.timeout, .chunk [10, 99, 100], .chunk [13], .timeout, .chunk [10]] := by decide
+example : advance exScript 4 0 = none := by decide
+-- send("abcd") over a socket that takes 3 bytes and then times out: the whole buffer offered -> "abc" out, Timeout
+-- with "d" kept; two bytes offered per sock.send -> "ab" out, Timeout with "cd" kept.  Conservation either way
+example : (sstepA [] (.send [1, 2, 3, 4]) (sstart [.accept 3, .timeout])).2.wire = [1, 2, 3] ∧
+    (sstepA [2, 2] (.send [1, 2, 3, 4]) (sstart [.accept 3, .timeout])).2.wire = [1, 2] ∧
+    (sstepA [2, 2] (.send [1, 2, 3, 4]) (sstart [.accept 3, .timeout])).2.getsendbuffer = [3, 4] ∧
+    (sstepA [2, 2] (.send [1, 2, 3, 4]) (sstart [.accept 3, .timeout])).1 = .timeout := by decide
+example : (srunA [([2, 2], .send [1, 2, 3, 4]), ([1], .flush)] (sstart [.accept 3, .timeout])).2.wire = [1, 2, 3, 4] := by
+  decide
+-- write_ns(b"ab") two bytes per sock.send over a socket that times out on the third send: "2:ab" is out, "," waits
+example : (writeNsA [2, 2, 2] 10 [97, 98] (sstart [.accept 9, .accept 9, .timeout])).1 = .timeout ∧
+    (writeNsA [2, 2, 2] 10 [97, 98] (sstart [.accept 9, .accept 9, .timeout])).2.wire = [50, 58, 97, 98] ∧
+    (writeNsA [2, 2, 2] 10 [97, 98] (sstart [.accept 9, .accept 9, .timeout])).2.getsendbuffer = [44] := by decide
+-- an observed recv on the one object that used up the OSError fault
+example : (daccRecv 1 ⟨none, [97, 13], 2, 0⟩ .osError exDuplex).map (·.1) = some (.fault .osError) := by decide
+-- ... is not accepted with the wrong class, nor when the fault lost the two bytes read before it
+example : (daccRecv 1 ⟨none, [97, 13], 2, 0⟩ .timeout exDuplex).map (·.1) = none := by decide
+example : (daccRecv 1 ⟨none, [], 2, 0⟩ .osError exDuplex).map (·.1) = none := by decide
+example : (daccRecv 1 ⟨some [97], [13], 2, 1⟩ .timeout exDuplex).map (·.1) = some (.rx (some (.ok [97]))) := by decide
+-- "ab" read by recv(1) three times (the third returns b""): everything was handed over
+example : runMixed ⟨2, 100⟩ [.chunk [97, 98]] [.recvObs 1 ⟨some [97], [], 1, 0⟩, .recvObs 1 ⟨some [98], [], 0, 0⟩,
+      .recvObs 1 ⟨some [], [], 0, 0⟩] (start [.chunk [97, 98]]) = some ([.ok [97], .ok [98], .ok []], ⟨[], []⟩) := by decide
+example : handedMixed [.recvObs 1 ⟨some [97], [], 1, 0⟩, .recvObs 1 ⟨some [98], [], 0, 0⟩, .recvObs 1 ⟨some [], [], 0, 0⟩]
+      [.ok [97], .ok [98], .ok []] = [97, 98] := by decide
 
 end C12
